@@ -1,14 +1,20 @@
 #!/bin/sh
 # usage: tools/try_mutant.sh <patch.diff> <property>...   (applies to /repo, runs quick checks, reverts)
-patch="$1"; shift
+# Holds the exclusive lock on /repo's working tree (checks hold it shared), so that no other check sees the mutant.
+patch="$(readlink -f "$1")"; shift
+mkdir -p /verif/build
+exec 9>/verif/build/.repo.lock
+flock -x 9
+export VERIF_REPO_LOCKED=1
 cd /repo || exit 2
 if ! git diff --quiet; then echo "/repo has uncommitted changes"; exit 2; fi
 git apply "$patch" || { echo "patch does not apply"; exit 2; }
 cd /verif
 for p in "$@"; do
-  ./check "$p" --tier quick > /tmp/try_$p.log 2>&1; rc=$?
+  ./check "$p" --tier ${TIER:-quick} > /tmp/try_$p.log 2>&1; rc=$?
   echo "== $p exit=$rc: $(grep -c '^VIOLATION' /tmp/try_$p.log) violation lines; $(grep -m1 'tier=' /tmp/try_$p.log)"
   grep '^VIOLATION' /tmp/try_$p.log | head -2
 done
 git -C /repo checkout -- .
+git -C /repo clean -fdq -- . 2>/dev/null
 git -C /repo status --short | head -3
